@@ -228,6 +228,10 @@ func genSolo(R *core.Rand, thorough bool, emit func(class string, nontrivial boo
 	for _, s := range []string{"-", "4f", "0181", "04ffffffff", "04ffffff7f", "0500000000 01", "4c0109", "ff", "61", "0100", "020000", "028000", "0180"} {
 		emit("cbh", true, fmt.Sprintf("C01 cbh %s %d", strings.ReplaceAll(s, " ", ""), 128))
 	}
+	// every value of the first script byte (the discriminator between small-int opcodes, direct pushes and the rest)
+	for b := 0; b < 256; b++ {
+		emit("cbh", true, fmt.Sprintf("C01 cbh %02x0900000000 %d", b, 9))
+	}
 	for i := 0; i < n/4; i++ {
 		emit("cbh", true, fmt.Sprintf("C01 cbh %s %d", hex.EncodeToString(R.Bytes(1+R.Intn(6))), R.Intn(300)))
 	}
